@@ -24,5 +24,5 @@ def run(ctx):
     # JitterTickers on the real clock under load (callbacks run late now and then): the spacing of the timestamps the ticker
     # sends is exact on any clock
     rt_tv(ctx, "ticker", "xtime", "Trace_XTime", "tv.cfg", "ticker real clock", ctx.pick(12, 48), confirm=False)
-    ctx.assumptions += ["a deadline that has already passed counts as 'closer than d' (DeadlineTooSoonError or the context's error are both accepted)",
+    ctx.assumptions += ["a deadline that has already passed is 'closer than d': DeadlineTooSoonError, as for any other deadline closer than d",
                         "bubbles use Go >= 1.23 timer semantics; the pre-1.23 semantics are covered by the real-clock lane for the lower bound only"]
